@@ -17,6 +17,7 @@ package l4wireguard
 import (
 	"bytes"
 	"encoding/binary"
+	"errors"
 	"io"
 	"strconv"
 
@@ -133,6 +134,9 @@ type MessageInitiation struct {
 }
 
 func (msg *MessageInitiation) FromBytes(src []byte) error {
+	if len(src) != MessageInitiationBytesTotal {
+		return ErrIncorrectSourceBytesLength
+	}
 	buf := bytes.NewBuffer(src)
 	if err := binary.Read(buf, MessageBytesOrder, &msg.Type); err != nil {
 		return err
@@ -232,6 +236,8 @@ var (
 )
 
 var (
+	ErrIncorrectSourceBytesLength = errors.New("incorrect source bytes length")
+
 	MessageBytesOrder = binary.LittleEndian
 )
 
